@@ -110,6 +110,10 @@ type gauge struct {
 	updated     uint64
 	curr        uint64
 	cachedGauge CachedGauge
+	// reportMu serialises the deliveries of this gauge: a value is handed to
+	// the reporter before any report that read a newer one can hand over its
+	// value, so the reporter's most recent value is never a stale one.
+	reportMu sync.Mutex
 }
 
 func newGauge(cachedGauge CachedGauge) *gauge {
@@ -129,6 +133,8 @@ func (g *gauge) value() float64 {
 
 func (g *gauge) report(name string, tags map[string]string, r StatsReporter) {
 	verifhook.Yield("gauge.report:0")
+	g.reportMu.Lock()
+	defer g.reportMu.Unlock()
 	if atomic.SwapUint64(&g.updated, 0) == 1 {
 		verifhook.Yield("gauge.report:1")
 		r.ReportGauge(name, tags, g.value())
@@ -137,6 +143,8 @@ func (g *gauge) report(name string, tags map[string]string, r StatsReporter) {
 
 func (g *gauge) cachedReport() {
 	verifhook.Yield("gauge.report:0")
+	g.reportMu.Lock()
+	defer g.reportMu.Unlock()
 	if atomic.SwapUint64(&g.updated, 0) == 1 {
 		verifhook.Yield("gauge.report:1")
 		g.cachedGauge.ReportGauge(g.value())
